@@ -876,6 +876,29 @@ impl SA {
                         sh.model_add(*t, -1, "unhold");
                     }
                 }
+                Step::HoldSelf => {
+                    let r = match &me {
+                        Me::Strong(r) => Some((*r).clone()),
+                        Me::Weak(w) => w.upgrade(),
+                    };
+                    if let Some(r) = r {
+                        self.held.push((idx, H::from_ref(r, &sh)));
+                        sh.model_add(idx, 1, "hold-self");
+                    }
+                }
+                Step::CheckUpgrade => {
+                    let w = match &me {
+                        Me::Strong(r) => ActorRef::downgrade(r),
+                        Me::Weak(w) => (*w).clone(),
+                    };
+                    match w.upgrade() {
+                        Some(r) => {
+                            drop(r);
+                            sh.model_add(idx, 0, "upgrade-some");
+                        }
+                        None => sh.model_add(idx, 0, "upgrade-none"),
+                    }
+                }
                 Step::Busy(us) => {
                     let t = std::time::Instant::now();
                     if *us > 20_000 {
